@@ -1,6 +1,6 @@
 (* I/O wrapper around the extracted models and specification of C05/C06 (coq/Msg/Ops.v). Same line
    protocol as harness/src/bin/c05.rs (see there); differences:
-     m <mode> ... <body>   body is always  B:<bodyhex>:<sighex>:<nfds>  (what the harness reported for the message); mode b =
+     m <mode> ... <body>   body is always  B:<bodyhex>:<sighex>:<nfds> [L:<live>]  (what the harness reported for the message); mode b =
                        the message is built by the models of the builders (build_call / build_signal via op_build)
        -> H:<hex|err> S:<hex> D:<decoded>      H = model of marshal, S = the specification's header
      s <name> <args>   -> M:<message as the harness prints it> B:<body>:<sig>:<nfds> | M:PANIC   (constructor models of
@@ -104,7 +104,9 @@ let eval (line : string) : string =
       let (bb, sg, nf) = (match String.split_on_char ':' body with
         | ["B"; b; s; n] -> (list_of_hex b, list_of_hex s, n_of_string n)
         | _ -> raise (Bad "body")) in
-      let m = op_build (_mode = "b") be typ flags rs iface dest sender member path err bb sg nf in
+      let live = if !pos < Array.length toks && String.length toks.(!pos) > 2 && String.sub toks.(!pos) 0 2 = "L:"
+                 then n_of_string (let t = next () in String.sub t 2 (String.length t - 2)) else nf in
+      let m = op_build (_mode = "b") be typ flags rs iface dest sender member path err bb sg nf live in
       let (r, spec) = op_marshal m serial in
       (match r with
        | Ok hb ->
